@@ -700,47 +700,104 @@ func checkCarriedRecordAdvances(p *Prog, r *Roles, res *Result, rule string) {
 				dc = cc
 			}
 		}
-		if carried == nil || dc == nil {
+		// the carried record may also be kept in one struct variable (a cell): a way back advances it if a store into
+		// the cell dominates it within the loop
+		var cell *ssa.Alloc
+		if carried == nil && dc != nil {
+			for _, c := range callsIn(f) {
+				if c.Common().IsInvoke() && c.Common().Method == appendM && len(c.Common().Args) >= 3 {
+					if ld, ok := resolve(c.Common().Args[2]).(*ssa.UnOp); ok && ld.Op == token.MUL {
+						if fa, ok := ld.X.(*ssa.FieldAddr); ok {
+							if al, ok := fa.X.(*ssa.Alloc); ok && al.Parent() == f {
+								cell = al
+							}
+						}
+					}
+				}
+			}
+		}
+		if (carried == nil && cell == nil) || dc == nil {
+			continue
+		}
+		if carried == nil {
+			lp := loopOf(dc.Block())
+			if lp == nil {
+				continue
+			}
+			var header *ssa.BasicBlock
+			for hb := range lp {
+				for _, pr := range hb.Preds {
+					if !lp[pr] {
+						header = hb
+					}
+				}
+			}
+			if header == nil {
+				continue
+			}
+			var stores []*ssa.Store
+			for _, ref := range *cell.Referrers() {
+				switch x := ref.(type) {
+				case *ssa.Store:
+					if x.Addr == ssa.Value(cell) && lp[x.Block()] {
+						stores = append(stores, x)
+					}
+				case *ssa.FieldAddr:
+					for _, r2 := range *x.Referrers() {
+						if st, ok := r2.(*ssa.Store); ok && st.Addr == ssa.Value(x) && lp[st.Block()] {
+							stores = append(stores, st)
+						}
+					}
+				}
+			}
+			exs := extractsOf(dc)
+			k := 0
+			for _, pred := range header.Preds {
+				if !lp[pred] {
+					continue
+				}
+				advanced := false
+				for _, st := range stores {
+					if st.Block() == pred || st.Block().Dominates(pred) {
+						advanced = true
+					}
+				}
+				if advanced {
+					continue
+				}
+				k++
+				n++
+				construct := fmt.Sprintf("%s: way back to the loop head #%d that keeps the carried record", funcName(f), k)
+				facts := dominatingFacts(pred)
+				if ifOf(pred) != nil {
+					for si, sc := range pred.Succs {
+						if sc == header && pred.Succs[1-si] != header {
+							facts = append(facts, expandFact(edgeFact(edge{pred, si}), 0)...)
+						}
+					}
+				}
+				ok := false
+				for _, cf := range facts {
+					if carriedExcuse(cf, exs, sp) {
+						ok = true
+					}
+				}
+				at := firstPositioned(pred)
+				pos := "-"
+				if at != nil {
+					pos = p.pos(at.Pos())
+				}
+				if ok {
+					res.ok(rule, construct, pos, "undecodable key, expired record, revision above the read revision, or compaction only")
+				} else {
+					res.bad(rule, construct, pos, "a reading scan can go on to the next record without making the current one the 'previous record': the next key is compared with a record two steps back, and the visible key before it is appended twice")
+				}
+			}
 			continue
 		}
 		lp := loopOf(carried.Block())
 		exs := extractsOf(dc)
-		excused := func(cf condFact) bool {
-			// (iv) the compaction flag
-			if ld, ok := resolve(cf.Raw).(*ssa.UnOp); ok && ld.Op == token.MUL && cf.Want {
-				if fa, ok := ld.X.(*ssa.FieldAddr); ok {
-					if bt, ok := fieldOf(fa).Type().Underlying().(*types.Basic); ok && bt.Kind() == types.Bool {
-						return true
-					}
-				}
-			}
-			// (ii) a helper of the package that answered true (expired)
-			if ex, ok := resolve(cf.Raw).(*ssa.Extract); ok && cf.Want {
-				if c, ok := ex.Tuple.(*ssa.Call); ok && c.Common().StaticCallee() != nil && c.Common().StaticCallee().Pkg == sp {
-					return true
-				}
-			}
-			if cf.Call != nil && cf.Want && cf.Call.Common().StaticCallee() != nil && cf.Call.Common().StaticCallee().Pkg == sp {
-				return true
-			}
-			if cf.X == nil {
-				return false
-			}
-			x, y := resolve(cf.X), resolve(cf.Y)
-			// (i) the key did not decode
-			if len(exs) > 2 && exs[2] != nil && x == ssa.Value(exs[2]) && isNilConst(y) && ((cf.Op == token.NEQ && cf.Want) || (cf.Op == token.EQL && !cf.Want)) {
-				return true
-			}
-			// (iii) above the read revision
-			if len(exs) > 1 && exs[1] != nil && x == ssa.Value(exs[1]) && ((cf.Op == token.GTR && cf.Want) || (cf.Op == token.LEQ && !cf.Want)) {
-				if ld, ok := y.(*ssa.UnOp); ok && ld.Op == token.MUL {
-					if _, ok := ld.X.(*ssa.FieldAddr); ok {
-						return true
-					}
-				}
-			}
-			return false
-		}
+		excused := func(cf condFact) bool { return carriedExcuse(cf, exs, sp) }
 		k := 0
 		for i, pred := range carried.Block().Preds {
 			if !lp[pred] {
@@ -781,4 +838,42 @@ func checkCarriedRecordAdvances(p *Prog, r *Roles, res *Result, rule string) {
 	if n == 0 {
 		res.und(rule, "scan worker: carried record", "-", "no loop-carried record that is appended to the receiver found")
 	}
+}
+
+// carriedExcuse: the facts under which the scan loop may go on without advancing its carried record.
+func carriedExcuse(cf condFact, exs map[int]ssa.Value, sp *ssa.Package) bool {
+	// (iv) the compaction flag
+	if ld, ok := resolve(cf.Raw).(*ssa.UnOp); ok && ld.Op == token.MUL && cf.Want {
+		if fa, ok := ld.X.(*ssa.FieldAddr); ok {
+			if bt, ok := fieldOf(fa).Type().Underlying().(*types.Basic); ok && bt.Kind() == types.Bool {
+				return true
+			}
+		}
+	}
+	// (ii) a helper of the package that answered true (expired)
+	if ex, ok := resolve(cf.Raw).(*ssa.Extract); ok && cf.Want {
+		if c, ok := ex.Tuple.(*ssa.Call); ok && c.Common().StaticCallee() != nil && c.Common().StaticCallee().Pkg == sp {
+			return true
+		}
+	}
+	if cf.Call != nil && cf.Want && cf.Call.Common().StaticCallee() != nil && cf.Call.Common().StaticCallee().Pkg == sp {
+		return true
+	}
+	if cf.X == nil {
+		return false
+	}
+	x, y := resolve(cf.X), resolve(cf.Y)
+	// (i) the key did not decode
+	if exs[2] != nil && x == exs[2] && isNilConst(y) && ((cf.Op == token.NEQ && cf.Want) || (cf.Op == token.EQL && !cf.Want)) {
+		return true
+	}
+	// (iii) above the read revision
+	if exs[1] != nil && x == exs[1] && ((cf.Op == token.GTR && cf.Want) || (cf.Op == token.LEQ && !cf.Want)) {
+		if ld, ok := y.(*ssa.UnOp); ok && ld.Op == token.MUL {
+			if _, ok := ld.X.(*ssa.FieldAddr); ok {
+				return true
+			}
+		}
+	}
+	return false
 }
